@@ -87,6 +87,9 @@ func (r *run) storeTo(addr value, v value) {
 		if label, ok := r.frozen[p]; ok {
 			r.frozenHit(label)
 		}
+		if len(r.symCopies) > 0 && r.symCopies[p] {
+			panic(engineError{"store through the address of a composite element selected by a symbolic index"})
+		}
 		if len(r.pooled) > 0 && r.pooled[p] {
 			r.pooledHit()
 		}
@@ -199,8 +202,72 @@ func (r *run) indexAddr(x value, idx *Term, typ types.Type) value {
 	if allScalar(base) {
 		return &symptr{base: base, idx: i}
 	}
+	if v, ok := symSelect(base, i); ok {
+		// a table of small composites read at a symbolic index: the element is
+		// materialised as a read-only copy whose components are selections
+		// over the whole table (a store through this address is not modelled)
+		cell := v
+		p := &cell
+		r.symCopies[p] = true
+		switch c := cell.(type) {
+		case array:
+			for j := range c {
+				r.symCopies[&c[j]] = true
+			}
+		case structure:
+			for j := range c {
+				r.symCopies[&c[j]] = true
+			}
+		}
+		return p
+	}
 	k := r.concretize(i, 0, len(base))
 	return &base[k]
+}
+
+// symSelect: base[i] for a symbolic i when every element is an array (or a
+// struct) of scalars of one shape: component-wise if-then-else chains.
+func symSelect(base []value, i *Term) (value, bool) {
+	if len(base) == 0 || len(base) > 1024 {
+		return nil, false
+	}
+	comps := func(v value) ([]value, int) {
+		switch c := v.(type) {
+		case array:
+			return c, 1
+		case structure:
+			return c, 2
+		}
+		return nil, 0
+	}
+	first, kind := comps(base[0])
+	if kind == 0 || len(first) == 0 || len(first) > 16 {
+		return nil, false
+	}
+	for _, e := range base {
+		c, k := comps(e)
+		if k != kind || len(c) != len(first) || !allScalar(c) {
+			return nil, false
+		}
+	}
+	out := make([]value, len(first))
+	for j := range first {
+		var res *Term
+		for k := len(base) - 1; k >= 0; k-- {
+			c, _ := comps(base[k])
+			e := c[j].(*Term)
+			if res == nil {
+				res = e
+			} else {
+				res = mkIte(mkEq(i, mkBV(64, uint64(k))), e, res)
+			}
+		}
+		out[j] = res
+	}
+	if kind == 1 {
+		return array(out), true
+	}
+	return structure(out), true
 }
 
 func (r *run) index(x value, idx *Term, typ types.Type) value {
@@ -212,6 +279,9 @@ func (r *run) index(x value, idx *Term, typ types.Type) value {
 		}
 		if allScalar(x) {
 			return r.loadFrom(&symptr{base: x, idx: i})
+		}
+		if v, ok := symSelect(x, i); ok {
+			return v
 		}
 		return copyVal(x[r.concretize(i, 0, len(x))])
 	case sval:
